@@ -103,6 +103,7 @@ class RabbitAdapter(Adapter):
         self.MC = MessageCategory
         self.broker, self.ch, self.srv = fa.mk_broker()
         self.srv.confirm_turns = getattr(self, "confirm_turns", 0)
+        self.srv.settle_turns = getattr(self, "settle_turns", 0)
         await self.broker.queue_declare("default")
         self.cons = {}
         self.started = set()
@@ -204,6 +205,8 @@ def run_history(S, backend="mem", steps=3, pre=1, ops_allowed=None, cancel_last=
     if backend == "rabbit":
         # RabbitMQ may deliver a published message before the publisher confirm returns, or after
         A.confirm_turns = [0, 3][S.pick("confirm_after_delivery", 2)]
+        # ... and a redelivery caused by reject/nack may reach the consumer before that call returns
+        A.settle_turns = [0, 3][S.pick("settle_returns_after_redelivery", 2)]
 
     def params_for(loop, delayed, tag):
         now = T0 + int(loop.time().f * SEC)
